@@ -14,6 +14,8 @@
 \*    E, dE,             E[t][j]  = numerator of the emission of site t in state j
 \*    dEm, d2Em,         numerators (over dE) of the first / second derivative of the emissions
 \*                       with respect to the variable under consideration
+\*    ex,                ex[t] = binary exponent of site t: its emissions are (E[t][j] / dE) * 2^-ex[t]
+\*                       (tiny emissions, 2^-70 .. 2^-600, stay exact: mantissa and exponent are separate)
 \*    bps,               break points as the library takes them: strictly
 \*                       increasing 0-based positions b in 1..len-1, site b
 \*                       starts a new segment
@@ -91,6 +93,14 @@ WalkD(mm, t, prev, w, dw, d2w, which) ==
                   f1 == g * mm.dEm[t][s]
                   f2 == g * mm.d2Em[t][s]
               IN WalkD(mm, t + 1, s, w * f, dw * f + w * f1, d2w * f + 2 * dw * f1 + w * f2, which), mm.n)
+
+\* With per-site exponents every path carries the factor 2^-(sum of the exponents of its sites): the
+\* exponent of a path does not depend on the path, so the likelihood is LikDef * 2^-LikExp / scale, the
+\* posteriors (ratios of path sums) do not see the exponents at all, and log L = log(LikDef / scale) - LikExp log 2.
+RECURSIVE PathExps(_, _, _)
+PathExps(mm, t, x) ==      \* the set of exponents carried by the paths (one element iff it factors out)
+  IF t > mm.len THEN {x} ELSE UNION {PathExps(mm, t + 1, x + mm.ex[t]) : s \in States(mm)}
+LikExp(mm) == SumF(LAMBDA t : mm.ex[t], mm.len)
 
 D1LikDef(mm) == WalkD(mm, 1, 1, 1, 0, 0, 1)
 D2LikDef(mm) == WalkD(mm, 1, 1, 1, 0, 0, 2)
@@ -223,6 +233,7 @@ Init ==
      LET mm == [n |-> N, len |-> L, P |-> p, dP |-> DP, Pi |-> pi, dPi |-> DP,
                 E |-> e, dE |-> 1, bps |-> SortedSeq(S), chunk |-> c,
                 \* a fixed, non-trivial pattern of emission derivatives (not enumerated: state count)
+                ex   |-> [t \in 1..L |-> IF t % 2 = 1 THEN 0 ELSE 70 * t],
                 dEm  |-> [t \in 1..L |-> [j \in 1..N |-> (e[t][j] + j) % 2]],
                 d2Em |-> [t \in 1..L |-> [j \in 1..N |-> (t + j) % 2]]]
      IN /\ Stationary(mm)
@@ -245,6 +256,8 @@ ForwardIsDefinition == pc \in {"bwd", "done"} => LikAlg(m, st) = LikDef(m)
 
 DerivativesAreDefinition ==
   pc \in {"bwd", "done"} => D1LikAlg(m, st) = D1LikDef(m) /\ D2LikAlg(m, st) = D2LikDef(m)
+
+ExponentFactorsOut == PathExps(m, 1, 0) = {LikExp(m)}
 
 ChunksCoverSites    == pc \in {"bwd", "done"} => EachSiteOnce(m, st)
 
